@@ -5,3 +5,9 @@ import DsdVerif.Props.C19Doc
 import DsdVerif.Props.C19Layout
 import DsdVerif.Props.C19Tabs
 import DsdVerif.Props.C19Sound
+import DsdVerif.Props.C19Stream
+import DsdVerif.Props.C19Complete
+import DsdVerif.Props.C19Forms
+import DsdVerif.Props.C19FormsEx
+import DsdVerif.Props.C19Reject
+import DsdVerif.Props.C19RejectEx
